@@ -250,7 +250,9 @@ func Run(c *core.Ctx) core.FinishOpts {
 		if selftest && i%97 == 5 {
 			// a wrong recording: one printed row too many / too few
 			if i%2 == 0 {
-				o.Wrong = func(r []sqlref.Row) []sqlref.Row { return append(append([]sqlref.Row{}, r...), sqlref.Row{iv(1), iv(1)}) }
+				o.Wrong = func(r []sqlref.Row) []sqlref.Row {
+					return append(append([]sqlref.Row{}, r...), sqlref.Row{iv(1), iv(1)})
+				}
 			} else {
 				o.Wrong = func(r []sqlref.Row) []sqlref.Row {
 					if len(r) == 0 {
